@@ -72,6 +72,12 @@ m("c06-new-parser-counter-1", SS, "    pub fn new() -> Self {\n        Self::def
 m("c05-append-twice-with-std-and-alloc", SS, "        #[cfg(any(feature = \"std\", feature = \"alloc\"))]\n        self.data.extend_from_slice(&ais_sentence.data);\n", "        #[cfg(feature = \"std\")]\n        self.data.extend_from_slice(&ais_sentence.data);\n        #[cfg(feature = \"alloc\")]\n        self.data.extend_from_slice(&ais_sentence.data);\n", ["C05", "C06", "C18"])
 m("c12-shiptype-manual-clone-slip", S + "types.rs", "#[derive(Debug, PartialEq, Eq, Copy, Clone)]\npub enum ShipType {", "impl Clone for ShipType {\n    fn clone(&self) -> Self {\n        match *self {\n            ShipType::TankerReserved(v) => ShipType::CargoReserved(v),\n            other => other,\n        }\n    }\n}\n\n#[derive(Debug, PartialEq, Eq, Copy)]\npub enum ShipType {", ["C12"])
 m("c16-sotdma-eq-ignores-timeout", S + "radio_status.rs", "#[derive(Debug, PartialEq, Eq)]\npub struct SotdmaMessage {", "impl PartialEq for SotdmaMessage {\n    fn eq(&self, other: &Self) -> bool {\n        self.sync_state == other.sync_state && self.sub_message == other.sub_message\n    }\n}\n\n#[derive(Debug, Eq)]\npub struct SotdmaMessage {", ["C16", "C04"])
+m("c11-rot-direction-absent-at-127", S + "navigation.rs", "            1..=127 => Some(Direction::Starboard),\n            -127..=-1 => Some(Direction::Port),", "            -127 | 127 => None,\n            1..=126 => Some(Direction::Starboard),\n            -126..=-1 => Some(Direction::Port),", ["C11"])
+m("c16-utc-submessage-spare-not-read", S + "radio_status.rs", "        let (data, minute) = take_bits(6u8)(data)?;\n        let (data, _spare) = take_bits::<_, u8, _, _>(2u8)(data)?;\n", "        let (data, minute) = take_bits(6u8)(data)?;\n", ["C16"])
+m("c20-record-with-precision", "src/bin/aisparser.rs", "        println!(\n            \"{:?}\\t{:?}\",", "        println!(\n            \"{:?}\\t{:.6?}\",", ["C20"])
+m("c07-payload-must-be-utf8", SS, "    let (data, ais_data) = take_until(\",\")(data)?;", "    let (data, ais_data) = verify(take_until(\",\"), |p: &[u8]| lib::std::str::from_utf8(p).is_ok())(data)?;", ["C07", "C08"])
+m("c18-rot-rate-cfg-formula", S + "navigation.rs", "            -126..=126 => Some((self.raw as f32 / 4.733) * (self.raw as f32 / 4.733)),", "            #[cfg(feature = \"std\")]\n            -126..=126 => Some((self.raw as f32 / 4.733) * (self.raw as f32 / 4.733)),\n            #[cfg(not(feature = \"std\"))]\n            -126..=126 => Some((self.raw as f32 * self.raw as f32) * (1.0 / (4.733 * 4.733))),", ["C18"])
+n("n-c11-heading-ge-via-unwrap-or-default", S + "static_and_voyage_related_data.rs", "            (data, Dte::default())", "            (data, None::<Dte>.unwrap_or_default())", ["C14", "C12", "C04"])
 m("c12-reverse-54-55", S + "types.rs", "AntiPollutionEquipment => 54,", "AntiPollutionEquipment => 55,", ["C12"])
 m("c12-epfd-15", S + "types.rs", "            15 => None,\n            _ => Some(Self::Unknown(data)),", "            _ => Some(Self::Unknown(data)),", ["C12"])
 m("c12-navaid-swap", S + "aid_to_navigation_report.rs", "9 => Some(Self::BeaconCardinalN),\n            10 => Some(Self::BeaconCardinalE),", "9 => Some(Self::BeaconCardinalE),\n            10 => Some(Self::BeaconCardinalN),", ["C12"])
